@@ -4,6 +4,7 @@ package c11
 import (
 	"encoding/json"
 	"fmt"
+	"sort"
 	"testing"
 
 	"pgregory.net/rapid"
@@ -89,10 +90,16 @@ func check(t ev.TB, c Case, labels ...string) {
 			f = nil
 		}
 	}
+	ids := map[string]int{}
 	for _, st := range c.Steps {
 		switch st.Op {
 		case "close", "raw", "failnode", "disconnect":
 			labels = append(labels, "cause:"+st.Op)
+		case "connect":
+			ids[st.ClientID]++
+			if ids[st.ClientID] == 2 {
+				labels = append(labels, "cause:displacement")
+			}
 		}
 	}
 	labels = append(labels, fmt.Sprintf("nodes:%d", c.Nodes))
@@ -136,7 +143,17 @@ func genCase(t *rapid.T, allowNodeFail bool) Case {
 		ci := rapid.IntRange(0, c.Clients-1).Draw(t, "client")
 		ka, isConn := connected[ci]
 		if !isConn {
-			st := sim.Step{Op: "connect", C: ci, Node: rapid.IntRange(0, c.Nodes-1).Draw(t, "node"), ClientID: fmt.Sprintf("cid%d", ci),
+			cid := fmt.Sprintf("cid%d", ci)
+			if len(connected) > 0 && rapid.IntRange(0, 5).Draw(t, "takeover") == 0 {
+				// displacement: this connection reuses the client id of an earlier one
+				var ids []int
+				for k := range connected {
+					ids = append(ids, k)
+				}
+				sort.Ints(ids)
+				cid = fmt.Sprintf("cid%d", rapid.SampledFrom(ids).Draw(t, "victim"))
+			}
+			st := sim.Step{Op: "connect", C: ci, Node: rapid.IntRange(0, c.Nodes-1).Draw(t, "node"), ClientID: cid,
 				KeepAlive: rapid.SampledFrom(keepalives).Draw(t, "keepalive")}
 			if rapid.Bool().Draw(t, "will") {
 				st.Will = &sim.Will{Topic: rapid.SampledFrom(topics).Draw(t, "willTopic"), Payload: fmt.Sprintf("will-of-%d", ci), QoS: byte(rapid.IntRange(0, 1).Draw(t, "willQos"))}
